@@ -50,7 +50,7 @@ OPS = [("set", ("k", b"v"), {"noreply": False}), ("get", ("h1",), {}), ("get_man
        # fire-and-forget commands of the third command helper, and the one command that ends the connection itself
        ("delete", ("h1",), {}), ("incr", ("num", 1), {"noreply": True}), ("quit", (), {})]
 PROBES = [("get", ("h2",), {}), ("add", ("probe", b"p"), {"noreply": False})]
-HARD = {"refused", "timeout", "unreach", "reset", "brokenpipe", "timeout_delivered", "eof", "oserror", "gaierror", "valueerror", "overflow", "eagain"}
+HARD = {"refused", "timeout", "unreach", "reset", "brokenpipe", "timeout_delivered", "eof", "oserror", "gaierror", "valueerror", "overflow", "eagain", "eintr_partial", "timeout_partial"}
 
 
 def build_cfg(c):
